@@ -54,7 +54,7 @@ VH_DRIVER(memory){
     for(auto&kv:be.live) free((char*)kv.first-16);
     g.count(epkey+std::to_string(plan),true); if(ep%501==0) g.sample(J().str("episode",epkey).num("failure_plan",plan).done()); }
   // the library's own manager test on a completed manager and the emulation helpers on a complete one
-  { Backend be; UriMemoryManager mm; memset(&mm,0,sizeof mm); uriCompleteMemoryManager(&mm,&be.mm); int rc=uriTestMemoryManager(&mm); if(rc!=URI_SUCCESS||!be.live.empty()||be.bad) g.violation(J().str("prop","C15").str("why","uriTestMemoryManager fails on a completed manager, or backend blocks stay outstanding").num("rc",rc).done()); }
+  { Backend be; UriMemoryManager mm; memset(&mm,0,sizeof mm); uriCompleteMemoryManager(&mm,&be.mm); int rc=uriTestMemoryManager(&mm); if(rc!=URI_SUCCESS||!be.live.empty()||be.bad||!be.canary) g.violation(J().str("prop","C15").str("why","uriTestMemoryManager fails on a completed manager, leaves backend blocks outstanding, or wrote outside a block").num("rc",rc).boo("canary",be.canary).done()); }
   // the two emulation helpers called DIRECTLY on a complete manager (public functions in their own right): overflowing products are refused
   // with ENOMEM before the manager is asked; otherwise calloc = malloc + zero fill, reallocarray = realloc of the product
   { const size_t SM=(size_t)-1; const size_t F[]={0,1,2,3,7,4096,(size_t)1<<31,(size_t)1<<32,((size_t)1<<32)+1,(size_t)1<<62,((size_t)1<<62)+6,(size_t)1<<63,((size_t)1<<63)+4,SM/2,SM/2+1,SM/3,SM-1,SM};
